@@ -16,7 +16,8 @@ Section Cross.
   Variable k : Q.
   Hypothesis Hk : 0 < k.
   Variable SR : FStyle XQ -> FStyle XQ -> Prop.
-  Hypothesis SR_weak : forall s s', SR s s' -> fstyle_wrel k s s'.
+  Variable crow : bool.        (* the direction of the container *)
+  Hypothesis SR_weak : forall s s', SR s s' -> fstyle_wrel k crow s s'.
   Notation L := (sc k).
   Notation O := (op_rel (sc k)).
   Notation A := (av_rel (sc k)).
